@@ -211,6 +211,7 @@ type sbSrv struct {
 }
 
 func (s *sbSrv) Ping(ctx context.Context) error {
+	sbPerturbPoint("fake: ping") // called by needsReload with the runner's mutex held
 	s.eng.mu.Lock()
 	defer s.eng.mu.Unlock()
 	if !s.loadOK || s.pingFail || s.closeBegun > 0 {
@@ -254,7 +255,10 @@ func (s *sbSrv) Tokenize(ctx context.Context, content string) ([]int, error)    
 func (s *sbSrv) Detokenize(ctx context.Context, tokens []int) (string, error)   { return "", nil }
 func (s *sbSrv) EstimatedVRAM() uint64                                          { return s.vram }
 func (s *sbSrv) EstimatedTotal() uint64                                         { return s.total }
-func (s *sbSrv) EstimatedVRAMByGPU(id string) uint64                            { return s.byGPU[id] }
+func (s *sbSrv) EstimatedVRAMByGPU(id string) uint64 {
+	sbPerturbPoint("fake: estimate by gpu") // called by updateFreeSpace for every loaded runner
+	return s.byGPU[id]
+}
 
 func (s *sbSrv) Close() error {
 	e := s.eng
